@@ -1,6 +1,6 @@
 """C19 — depth is limited by memory, not by the host's native stack (R19a-b)."""
 import re
-from ..facts import callee, short_path
+from ..facts import callee, op_place, short_path
 from .common import *
 
 # Recursions whose depth does not grow with the data, each with the reason (reviewed by reading).
@@ -223,11 +223,59 @@ def r19e(ctx, rep, rule="R19e"):
                                      "nested x recurses once per level and exhausts the native stack" % nm, [t["loc"]])
 
 
+def r19f(ctx, rep, rule="R19f"):
+    facts = ctx["facts"]
+    rep.rule(rule, "a datum is not copied for an error that does not happen: a Cell::clone whose result is consumed only by the "
+             "construction of an Error value (the payload of `expected pair, but found ...`) lies on a path that constructs "
+             "an Err — e.g. inside the None arm of a match, or an ok_or_else closure. Option::ok_or(Error(..clone())) "
+             "evaluates its argument eagerly: every successful car / cdr of the compiler then deep-copies and drops the "
+             "whole expression, and the copy and the drop both recurse on the native stack along the list.")
+    n = 0
+    bad_n = 0
+    for p, f in sorted(facts.fns.items()):
+        if f.crate != "marwood" or "::tests::" in p or f.impl_trait in DERIVE_TRAITS:
+            continue
+        sites = [(bb, t) for bb, t in f.calls() if (t.get("fnargs") or callee(t) or "") == "<marwood::cell::Cell as std::clone::Clone>::clone"
+                 and not t["dest"]["p"]]
+        if not sites:
+            continue
+        E = {bb for bb, j, st in f.stmts() if st["rv"]["k"] == "agg" and st["rv"].get("variant") == "Err"}
+        rets = set(f.return_blocks())
+        k = 0
+        for bb, t in sites:
+            d = t["dest"]["l"]
+            uses = []
+            for b2, j2, st in f.stmts():
+                rv = st["rv"]
+                ops = rv.get("ops", []) + ([rv["a"]] if "a" in rv else []) + ([rv["b"]] if "b" in rv else [])
+                if any((op_place(o) or {}).get("l") == d for o in ops):
+                    uses.append(("agg-error" if rv["k"] == "agg" and (rv.get("adt") or "") == "marwood::error::Error" else "stmt", st))
+                elif rv["k"] == "ref" and rv["place"]["l"] == d:
+                    uses.append(("stmt", st))
+            for b2, t2 in f.calls():
+                if any((op_place(a) or {}).get("l") == d for a in t2["args"]):
+                    uses.append(("call", t2))
+            if not uses or any(u[0] != "agg-error" for u in uses):
+                continue
+            n += 1
+            k += 1
+            reach = f.reach_from(t["target"], avoid=E) if t.get("target") is not None else set()
+            ok = not (reach & rets)
+            if not ok:
+                bad_n += 1
+            (rep.ok if ok else rep.fail)(rule, "%s|%s|clone#%d" % (rule, f.short, k),
+                                         "%s: the copy feeding an error payload is made only on the way to an Err" % f.short if ok else
+                                         "%s copies a datum for an error payload on a path that can succeed (eager ok_or): each successful "
+                                         "step deep-copies and drops the expression, recursing along its length" % f.short, [t["loc"]])
+    rep.floor(rule, "datum copies made for error payloads", n, 20)
+
+
 def run(ctx, rep):
     r19a(ctx, rep)
     r19b(ctx, rep)
     r19c(ctx, rep)
     r19d(ctx, rep)
     r19e(ctx, rep)
+    r19f(ctx, rep)
     rep.not_decided += ["actual frame sizes and the depth at which the abort happens",
                         "recursion hidden inside external crates (num, std)"]
